@@ -9,9 +9,11 @@ import (
 	"os"
 	"strconv"
 	"strings"
+	"sync/atomic"
 	"testing"
 	"unsafe"
 	"verif/harness/guard"
+	"verif/harness/hook"
 
 	"github.com/uhppoted/uhppote-core/types"
 	"pgregory.net/rapid"
@@ -225,7 +227,7 @@ func decide(c aCase) (*rp.Fail, verdict) {
 		return rp.Failf(site+"/panic", "%s(%q) panicked: %v", site, c.S, pnc), v
 	}
 	// the same text ending exactly where a readable page ends: the parser reads the string and nothing after it
-	if n := len(c.S); n > 0 && n <= 512 && guard.Available() {
+	if n := len(c.S); n > 0 && n <= 512 && (n+int(c.S[0])+int(c.S[n-1]))%3 == 0 && guard.Available() {
 		placed, release := guard.Place([]byte(c.S), true)
 		var again parsed
 		var p2 any
@@ -314,7 +316,31 @@ func decide(c aCase) (*rp.Fail, verdict) {
 
 func vname(v verdict) string { return [...]string{"dont-care", "must-accept", "must-reject"}[v] }
 
+// clients come and go in a process that parses address text (a configuration is read, a client is built from it, the next
+// configuration is read ...): what a parser accepts depends on the text and the role, never on which clients the process has
+// created - with whatever bind, broadcast and listen ports.
+var clientsMade int64
+
+func makeAClient(k int64) {
+	ports := []uint16{54321, 60001, 60000, 1, 65535, 12345, 60005, 0}
+	cfg := hook.ClientCfg{BindIP: [4]byte{127, 0, 0, 1}, BindPort: ports[(k+1)%8], HasBroadcast: true, BroadcastIP: [4]byte{127, 0, 0, 1}, BroadcastPort: ports[k%7],
+		HasListen: k%2 == 0, ListenIP: [4]byte{127, 0, 0, 1}, ListenPort: ports[(k+3)%7],
+		Devices: []hook.DeviceCfg{{Name: "c", Serial: 405419896, HasAddr: true, IP: [4]byte{127, 0, 0, 9}, Port: ports[(k+2)%7], Protocol: "udp"}}}
+	func() {
+		defer func() { recover() }()
+		if k%3 == 0 {
+			hook.Mem(cfg)
+		} else {
+			hook.Real(cfg)
+		}
+	}()
+}
+
 func check(c aCase) *rp.Fail {
+	if n := atomic.AddInt64(&clientsMade, 1); n%97 == 1 {
+		makeAClient(n / 97)
+		ev.Class("clients-created-between-the-parses", 1)
+	}
 	f, v := decide(c)
 	if f == nil && v == mustAccept {
 		if p, _ := parse(c.Role, c.S); p.err == nil {
